@@ -330,6 +330,8 @@ class NodeBase(object):
         """
         self._frozen = False
         self._stale = True
+        # parents may have cached a value computed from the frozen value
+        self.notify_parents()
 
     def mark_for_update(self):
         """
